@@ -9,6 +9,7 @@ block, every event and every event data; sequences are covered by induction.
 import EdzedModel.Fsm
 import EdzedProofs.Fsm
 import EdzedProofs.FsmTie03
+import EdzedProofs.FsmTablesTie
 import EdzedModel.Gen.Constants
 
 namespace Edzed.Fsm
@@ -925,5 +926,200 @@ example :
          next := some ⟨.ev "nxt", [("ok", .bool true), ("tag", .str "d2")], "C"⟩ },
        [.cond .meth "nxt" [("ok", .bool true), ("tag", .str "d2")]], some true) := by
   decide +kernel
+
+
+/-! ## Tie by translation, second part: the tables, the callbacks, the events, the context copy
+
+`FSM._check_state`, `_build_tables` (with `add_transition`), `__init__`, `_send_events`, `_run_cb` and `_event` are
+translated from the current source by tools/py2lean_fsmtables.py into programs of lean/EdzedModel/Gen/
+TranslatedFsmTables.lean (namespace `Gen.TrFT`): a monad with the class / instance attributes as state,
+exceptions, `return`, `break` / `continue`; dicts, sets and defaultdicts are association lists; what the
+methods call outside themselves is a field of `Prims`.  The proofs are in EdzedProofs/FsmTablesTie.lean. -/
+
+section tables
+open FT Gen.TrFT
+variable {δ Du κ α ε χ η : Type}
+
+/-- **the tables**: for every class definition a user can write (STATES a sequence of names; EVENTS rules with
+    from-states None / `'a | b'` / a sequence, targets a name or None; TIMERS with event names or Goto), provided no
+    name is refused by `check_name`, no event name is an SBlock event and the TIMERS durations are well-formed,
+    the translated `_build_tables` fails (ValueError) exactly when the model's `buildTables` refuses the
+    definition, and otherwise produces the model's tables: `_ct_states`, `_ct_events`, `_ct_transition` (same
+    keys incl. the any-state key None and the forbidding targets None, same insertion order), `_ct_chainlimit`,
+    and in addition `_ct_timed_event`, the collected `cond_/enter_/exit_` methods (`collectStep`: the attribute
+    name is split at the FIRST `_`, the kind must be one of the three, the rest an event resp. a state, the
+    attribute callable) and the `_ct_prefixes` rows that `__init__` uses -/
+theorem translated_fsm03_tables_build_is_model (p : Prims δ Du κ α ε χ η) (zero : δ → Bool)
+    (o : Obj δ Du κ α ε χ) (sts : List String) (hS : o.STATES = .seq sts)
+    (hcn : ∀ n w, p.checkName n w = .ok ())
+    (hh : ∀ r ∈ o.EVENTS, dhas o.ctHandlers r.1 = false)
+    (hper : ∀ t ∈ o.TIMERS, ∃ du, p.timePeriod t.2.1 = .ok du) :
+    match Fsm.buildTables (specOf p zero o sts) with
+    | .error _ => (Gen.TrFT.buildTables p o).2 = .raise "ValueError"
+    | .ok t =>
+      (Gen.TrFT.buildTables p o).2 = .next () ∧
+      (Gen.TrFT.buildTables p o).1.ctStates = t.states ∧
+      (Gen.TrFT.buildTables p o).1.ctEvents = t.events ∧
+      trOf (Gen.TrFT.buildTables p o).1.ctTransition = t.trans ∧
+      (Gen.TrFT.buildTables p o).1.ctChainlimit = t.chainLimit ∧
+      (Gen.TrFT.buildTables p o).1.ctTimedEvent = o.TIMERS.foldl (fun d t => dset d t.1 t.2.2) [] ∧
+      (Gen.TrFT.buildTables p o).1.ctMethods =
+        o.classVars.foldl (collectStep p t.events t.states) [("enter", []), ("exit", []), ("cond", [])] ∧
+      (Gen.TrFT.buildTables p o).1.ctPrefixes = (resetObj o).ctPrefixes :=
+  buildTables_spec p zero o sts hS hcn hh hper
+
+/-- hence "the FSM follows its transition table" starts from the class attributes: the lookup the model does
+    in the tables built by the TRANSLATED `_build_tables` obeys `lookup_precedence` -/
+theorem translated_fsm03_tables_lookup_precedence (p : Prims δ Du κ α ε χ η) (zero : δ → Bool)
+    (o : Obj δ Du κ α ε χ) (sts : List String) (hS : o.STATES = .seq sts)
+    (hcn : ∀ n w, p.checkName n w = .ok ())
+    (hh : ∀ r ∈ o.EVENTS, dhas o.ctHandlers r.1 = false)
+    (hper : ∀ t ∈ o.TIMERS, ∃ du, p.timePeriod t.2.1 = .ok du)
+    (t : Tables) (hb : Fsm.buildTables (specOf p zero o sts) = .ok t) (e : EvName) (s : State) :
+    trOf (Gen.TrFT.buildTables p o).1.ctTransition = t.trans ∧
+    (∀ tgt, (e, some s, tgt) ∈ t.trans → lookup t e s = tgt) ∧
+    ((∀ x, (e, some s, x) ∉ t.trans) → ∀ tgt, (e, none, tgt) ∈ t.trans → lookup t e s = tgt) ∧
+    ((∀ x, (e, some s, x) ∉ t.trans) → (∀ x, (e, none, x) ∉ t.trans) → lookup t e s = none) := by
+  have h := buildTables_spec p zero o sts hS hcn hh hper
+  rw [hb] at h
+  exact ⟨h.2.2.2.1, Edzed.Fsm.lookup_precedence _ t hb e s⟩
+
+/-- `_check_state` -/
+theorem translated_fsm03_check_state (p : Prims δ Du κ α ε χ η) (s : String) (o : Obj δ Du κ α ε χ) :
+    checkState p s o = if o.ctStates.contains s then (o, .next ()) else (o, .raise "ValueError") :=
+  checkState_spec p s o
+
+/-- **`_run_cb`**: the instance callback first, then the class method, each if it exists; both results are
+    collected in that order; nothing else happens -/
+theorem translated_fsm03_run_cb_calls (p : Prims δ Du κ α ε χ η) (kind name : String) (o : Obj δ Du κ α ε χ)
+    (F : List (String × κ)) (Mt : List (String × α))
+    (hF : o.fsmFunctions.lookup kind = some F) (hM : o.ctMethods.lookup kind = some Mt) :
+    (runCb p kind name o).1.calls =
+      o.calls ++ ((F.lookup name).map Call.func).toList ++ ((Mt.lookup name).map Call.meth).toList :=
+  runCb_calls p kind name o F Mt hF hM
+
+/-- … which is the model's `condsOf` (function before method) with the values the model gives to
+    `all(…)`: each condition evaluated on the data in the context variable -/
+theorem translated_fsm03_run_cb_is_condsOf (d : Def) (p : Prims δ Du CondS CondS ε χ η) (e : String)
+    (o : Obj δ Du CondS CondS ε χ)
+    (hF : o.fsmFunctions.lookup "cond" = some d.condF) (hM : o.ctMethods.lookup "cond" = some d.condM)
+    (hfr : ∀ c (o' : Obj δ Du CondS CondS ε χ), p.funcResult c o' = c.eval o'.ctxVar)
+    (hmr : ∀ c (o' : Obj δ Du CondS CondS ε χ), p.methResult c o' = c.eval o'.ctxVar) :
+    (runCb p "cond" e o).2 = .ret ((condsOf d e).map fun c => c.2.eval o.ctxVar) ∧
+    (runCb p "cond" e o).1.calls = o.calls ++ (condsOf d e).map (fun c =>
+      match c.1 with
+      | .func => Call.func c.2
+      | .meth => Call.meth c.2) :=
+  runCb_cond_model d p e o hF hM hfr hmr
+
+/-- **`_send_events`**: every event configured for the current state is sent once, in order, with `sdata`
+    minus the private items, the trigger without `on_`, the CURRENT state and the CURRENT output (what the
+    model logs as `onExit s output` / `onEnter s output`); nothing for a state without events -/
+theorem translated_fsm03_send_events_items (p : Prims δ Du κ α ε χ η) (trigger s : String)
+    (o : Obj δ Du κ α ε χ) (tbl : List (String × List ε)) (hs : o.state = some s)
+    (ht : o.stateEvents.lookup trigger = some tbl) :
+    sendEvents p trigger o =
+      match tbl.lookup s with
+      | none => (o, .ret ())
+      | some evs => ({ o with calls := o.calls ++ evs.map fun ev => Call.send ev (sendItems p trigger s o) },
+          .next ()) :=
+  sendEvents_spec p trigger s o tbl hs ht
+
+/-- **`_event`**: `contextvars.copy_context().run(self._ctx_event, …)` -- the result and everything
+    `_ctx_event` did to the block are handed on, its writes to `fsm_event_data` are not -/
+theorem translated_fsm03_event_copies_context (p : Prims δ Du κ α ε χ η) (e : η) (data : Data)
+    (o : Obj δ Du κ α ε χ) :
+    event p e data o =
+      match p.ctxEvent e data o with
+      | (o1, .ok b) => ({ o1 with ctxVar := o.ctxVar }, .ret b)
+      | (o1, .error x) => ({ o1 with ctxVar := o.ctxVar }, .raise x) :=
+  event_spec p e data o
+
+/-- what the `_ctx_event` tie relies on (F03.prims: `runCbEnter` / `startTimer` apply `nested` and leave the
+    context variable alone): a `self.event()` of an entry action, i.e. the translated `_event` around the
+    translated `_ctx_event` on the model's primitives while `_fsm_event_active`, IS the model's `nested` --
+    request posted / multiplication error / rejection, conditions logged with the data of THIS call -- and the
+    caller's context variable is what it was -/
+theorem translated_fsm03_event_is_post (d : Def) (q : Prims δ Du κ α ε (Option Req × List Action × Bool) EType)
+    (t : TS) (base : Obj δ Du κ α ε (Option Req × List Action × Bool)) (e : EType) (data : Data)
+    (ha : t.f.active = true) :
+    (tsOf (event { q with ctxEvent := ctxEventObj d } e data (objOf t base)).1).f = (nested d t.f e data).1 ∧
+    (tsOf (event { q with ctxEvent := ctxEventObj d } e data (objOf t base)).1).log
+      = t.log ++ (nested d t.f e data).2.2 ∧
+    (tsOf (event { q with ctxEvent := ctxEventObj d } e data (objOf t base)).1).ctx = t.ctx ∧
+    (event { q with ctxEvent := ctxEventObj d } e data (objOf t base)).2 =
+      (match flowOf (nested d t.f e data).2.1 with
+       | .ret b => Out.ret b
+       | .raise x => Out.raise (excName x)
+       | _ => Out.raise "?") := by
+  have hp := translated_fsm03_post_is_model d t e data ha
+  simp only [view, Prod.mk.injEq] at hp
+  obtain ⟨h1, h2, h3⟩ := hp
+  rw [event_spec]
+  simp only [ctxEventObj, tsOf_objOf]
+  rw [h3]
+  cases hfl : flowOf (nested d t.f e data).2.1 <;> simp [tsOf, objOf, h1, h2]
+
+/-- **`__init__`, keyword parsing**: every keyword argument is tried against EVERY row of `_ct_prefixes`, in
+    order; a matching prefix with a rest that is not in the container the row refers to (`t_`: the timed states
+    with a default duration entry, `cond_`: the events, the others: the states) is TypeError; otherwise the
+    pair (rest, keyword) is appended under that prefix -/
+theorem translated_fsm03_init_sorts_keywords (p : Prims δ Du κ α ε χ η) (n : Option κ) (o : Obj δ Du κ α ε χ)
+    (args : List String) (dd : List (String × List (String × String))) :
+    match sortArgs p (refContains o) o.ctPrefixes dd args with
+    | .ok dd' => forEach args (initLoop0 p n) { o with tmpDD := dd } = ({ o with tmpDD := dd' }, .next ())
+    | .error _ => (forEach args (initLoop0 p n) { o with tmpDD := dd }).2 = .raise "TypeError" :=
+  sortArgs_spec p n o args dd
+
+/-- **`__init__`** of a block without FSM-specific keywords, statement by statement: shared durations, empty
+    callback / event tables, `_on_notrans`, `_state = UNDEF`, timer / flags / pending request reset, empty
+    `sdata`, `initdef` defaulting to the first state, then `super().__init__` with all keywords -/
+theorem translated_fsm03_init_plain (p : Prims δ Du κ α ε χ η) (n : Option κ) (o : Obj δ Du κ α ε χ)
+    (dd : List (String × List (String × String))) (evs : List ε)
+    (hT : o.typeIsFSM = false)
+    (hdd : sortArgs p (refContains o) o.ctPrefixes [] (o.kwargs.map (·.1)) = .ok dd)
+    (hnone : ∀ k, ddget dd k = []) (hev : p.eventTuple n = .ok evs) :
+    Gen.TrFT.init p n o =
+      ({ o with
+          tmpDD := dd
+          duration := DurRef.shared
+          fsmFunctions := [("cond", []), ("enter", []), ("exit", [])]
+          stateEvents := [("on_enter", []), ("on_exit", [])]
+          onNotrans := evs
+          state := none
+          activeTimerNone := true
+          timersEnabled := false
+          fsmEventActive := false
+          nextEventNone := true
+          sdata := []
+          initdefDefault := (if dhas o.kwargs "initdef" then o.initdefDefault else some o.ctDefaultState)
+          calls := (o.calls ++ [Call.superInit o.kwargs
+            (if dhas o.kwargs "initdef" then o.initdefDefault else some o.ctDefaultState)]) },
+        .next ()) :=
+  init_plain_spec p n o dd evs hT hdd hnone hev
+
+/-- **`__init__`, `t_STATE=value`**: the instance works on ITS OWN copy of the default durations (the class's
+    dict is not modified), the value goes through `time_period`, the keyword is consumed before
+    `super().__init__` sees the rest -/
+theorem translated_fsm03_init_duration_is_own_copy (p : Prims δ Du κ α ε χ η) (n : Option κ)
+    (o : Obj δ Du κ α ε χ) (dd : List (String × List (String × String))) (evs : List ε) (ts arg : String)
+    (v : κ) (du : Du) (rest : List (String × κ))
+    (hT : o.typeIsFSM = false)
+    (hdd : sortArgs p (refContains o) o.ctPrefixes [] (o.kwargs.map (·.1)) = .ok dd)
+    (ht : ddget dd "t_" = [(ts, arg)])
+    (hnone : ∀ k, k ≠ "t_" → ddget dd k = [])
+    (hts : dhas o.ctDefaultDuration ts = true)
+    (hpop : dpop o.kwargs arg = .ok (v, rest))
+    (hper : p.timePeriodKw v = .ok (some du))
+    (hev : p.eventTuple n = .ok evs) :
+    (Gen.TrFT.init p n o).2 = .next () ∧
+    (Gen.TrFT.init p n o).1.duration = DurRef.own (dset o.ctDefaultDuration ts (some du)) ∧
+    (Gen.TrFT.init p n o).1.ctDefaultDuration = o.ctDefaultDuration ∧
+    (Gen.TrFT.init p n o).1.kwargs = rest ∧
+    (Gen.TrFT.init p n o).1.calls = o.calls ++ [Call.superInit rest
+      (if dhas rest "initdef" then o.initdefDefault else some o.ctDefaultState)] :=
+  init_one_duration_spec p n o dd evs ts arg v du rest hT hdd ht hnone hts hpop hper hev
+
+end tables
 
 end Edzed.TrTie
